@@ -43,6 +43,9 @@
 #include <sys/wait.h>
 #include <sys/resource.h>
 #include <time.h>
+#include <thread>
+#include <atomic>
+#include <chrono>
 
 #include <sys/syscall.h>
 
@@ -81,6 +84,7 @@ namespace vh
 #include "vh_sched.h"
 #include "vh_cfg.h"
 #include "vh_api.h"
+#include "vh_ctl.h"
 
 static std::string handle(const std::string& verb, const std::vector<std::string>& f)
 {
@@ -95,6 +99,8 @@ static std::string handle(const std::string& verb, const std::vector<std::string
         else if (verb == "eq") { return vh::verb_eq(f); }
         else if (verb == "cfg") { return vh::verb_cfg(f); }
         else if (verb == "api") { return vh::verb_api(f); }
+        else if (verb == "ctl") { return vh::verb_ctl(f); }
+        else if (verb == "ctl2") { return vh::verb_ctl2(f); }
         else { return "bad-verb"; }
     }
     catch (const std::exception& ex)
